@@ -70,9 +70,9 @@ struct Rng
     // uniform integer in [lo, hi]
     int64_t range (int64_t lo, int64_t hi)
     {
-        uint64_t span = (uint64_t) (hi - lo) + 1;
+        uint64_t span = (uint64_t) hi - (uint64_t) lo + 1; // unsigned: hi - lo may exceed int64_t
         if (span == 0) return (int64_t) u64 ();
-        return lo + (int64_t) (u64 () % span);
+        return (int64_t) ((uint64_t) lo + u64 () % span);
     }
     bool   coin () { return u64 () & 1; }
     bool   one_in (uint64_t n) { return (u64 () % n) == 0; }
